@@ -300,6 +300,8 @@ def build_for(pid, tier):
     if pid in ('C01', 'C03'):
         from . import miner_activate
         O += miner_activate.build_for(pid, tier)
+    if pid in ('C15', 'C01', 'C03', 'C05'):
+        O += miner_cron.build_pet(pid, tier)
     if pid in ('C15', 'C01', 'C03'):
         D = miner_cron.build_dispute(pid, tier)
         O += D if tier != 'quick' else D[:1]
